@@ -63,6 +63,32 @@ theorem reason_map (pinned : Bool) (limit : Int) (stops : List Bytes) (evs : Lis
     (fun st p h _ _ => (hstep st p h).1) (fun st p h _ hd => (hstep st p h).2 hd)
     evs init ⟨rfl, rfl⟩
 
+/-- **What "generated text" and "cause" mean in terms of the script.**  The pieces sampled (`f.gen`)
+    are exactly the first events of the script, all of them pieces; the cause says why the next
+    event was not consumed: EOS ⇒ the next event is EOS; limit ⇒ the limit is positive and exactly
+    `limit` pieces were sampled; still running ⇒ the whole script was consumed and the limit is not
+    reached; stop string ⇒ the limit was not exceeded. -/
+theorem cause_spec (pinned : Bool) (limit : Int) (stops : List Bytes) (evs : List Ev) :
+    let f := run pinned limit stops init evs
+    f.gen.map Ev.piece <+: evs ∧
+    (f.cause = some .eos → evs[f.gen.length]? = some .eos ∧ f.numPredicted = f.gen.length + 1) ∧
+    (f.cause = some .limit → limit > 0 ∧ (f.gen.length : Int) = limit ∧ f.numPredicted = f.gen.length) ∧
+    (f.cause = none → f.gen.length = evs.length ∧ ¬ (limit > 0 ∧ (f.gen.length : Int) ≥ limit)) ∧
+    (∀ s, f.cause = some (.stopString s) → f.numPredicted = f.gen.length ∧
+      ¬ (limit > 0 ∧ (f.gen.length : Int) > limit)) := by
+  intro f
+  obtain ⟨ps, h1, h2, h3, h4, h5, h6⟩ :=
+    consumed_gen pinned limit stops evs init rfl rfl rfl (by intro h; simp [init]; omega)
+  have hg : f.gen = ps := by
+    have : f.gen = init.gen ++ ps := h1
+    simpa [init] using this
+  rw [hg]
+  refine ⟨h2, ?_, ?_, ?_, ?_⟩
+  · intro h; have := h3 h; rw [hg] at this; exact this
+  · intro h; have := h4 h; rw [hg] at this; exact this
+  · intro h; have := h5 h; rw [hg] at this; exact ⟨this.1, this.2.1⟩
+  · intro s h; have := h6 s h; rw [hg] at this; exact this
+
 /-! ### 3. for ANY bytes: the output is the generated text with some bytes deleted -/
 
 theorem out_sublist_gen (pinned : Bool) (limit : Int) (stops : List Bytes) (evs : List Ev) :
@@ -232,33 +258,36 @@ theorem no_split (pinned : Bool) (limit : Int) (stops : List Bytes) (evs : List 
 
 /-! ### 5. stop strings (valid, non-empty stops; generated text a prefix of valid UTF-8) -/
 
-/-- **A stop ended the run** ⇒ it is the first *listed* stop occurring in the generated text, the
-    output is exactly the generated text before that stop's first occurrence, the reason is "stop",
-    and no stop occurred before the last token ("as soon as"). -/
-theorem stop_found (limit : Int) (stops : List Bytes) (evs : List Ev) (hok : StopsOk stops) (s : Bytes) :
-    let f := run true limit stops init evs
+/-- **A stop ended the run** ⇒ the output is exactly the generated text before that stop's first
+    occurrence, the reason is "stop", and no stop occurred before the last token ("as soon as").
+    Which stop: on the pinned code the first *listed* stop occurring in the generated text; on the
+    repaired code one whose first occurrence is the earliest of all stops. -/
+theorem stop_found (pinned : Bool) (limit : Int) (stops : List Bytes) (evs : List Ev) (hok : StopsOk stops) (s : Bytes) :
+    let f := run pinned limit stops init evs
     ValidPrefix f.genText → f.cause = some (.stopString s) →
-      f.done = some .stop ∧ s ∈ stops ∧ findStop f.genText stops = some s ∧
-      (∃ idx, indexOf s f.genText = some idx ∧ f.outText = f.genText.take idx) ∧
+      f.done = some .stop ∧ s ∈ stops ∧
+      (∃ idx, indexOf s f.genText = some idx ∧ f.outText = f.genText.take idx ∧
+        (pinned = false → ∀ t ∈ stops, ∀ j, indexOf t f.genText = some j → idx ≤ j)) ∧
+      (pinned = true → findStop f.genText stops = some s) ∧
       (∀ t ∈ stops, ¬ Occurs t f.gen.dropLast.flatten) := by
   intro f hvp hc
-  have := run_main hok limit evs hvp
+  have := run_main pinned hok limit evs hvp
   unfold Post at this
   rw [hc] at this
-  exact ⟨this.1, this.2.1, this.2.2.1, this.2.2.2.1, this.2.2.2.2.1⟩
+  exact ⟨this.1, this.2.1, this.2.2.2.1, this.2.2.1, this.2.2.2.2.1⟩
 
 /-- **No stop ended the run** (still running, EOS, or limit) ⇒ no stop occurs anywhere in the
     generated text; at EOS / at the limit the output is all of it (minus a trailing incomplete
     character); while running nothing is lost: output ++ pending = generated. -/
-theorem ends_at_eos_or_limit (limit : Int) (stops : List Bytes) (evs : List Ev) (hok : StopsOk stops) :
-    let f := run true limit stops init evs
+theorem ends_at_eos_or_limit (pinned : Bool) (limit : Int) (stops : List Bytes) (evs : List Ev) (hok : StopsOk stops) :
+    let f := run pinned limit stops init evs
     ValidPrefix f.genText → (∀ s, f.cause ≠ some (.stopString s)) →
       (∀ t ∈ stops, ¬ Occurs t f.genText) ∧
       ((f.cause = some .eos ∨ f.cause = some .limit) → f.outText = trimValid f.genText) ∧
       ((f.cause = some .eos ∨ f.cause = some .limit) → validUtf8 f.genText = true → f.outText = f.genText) ∧
       (f.cause = none → f.outText ++ f.pending.flatten = f.genText) := by
   intro f hvp hc
-  have := run_main hok limit evs hvp
+  have := run_main pinned hok limit evs hvp
   unfold Post at this
   cases hcause : f.cause with
   | none =>
@@ -276,18 +305,18 @@ theorem ends_at_eos_or_limit (limit : Int) (stops : List Bytes) (evs : List Ev) 
 
 /-- "as soon as the generated text contains a stop the output ends": if any stop occurs in the
     generated text, the run was ended by a stop string -/
-theorem stop_honoured (limit : Int) (stops : List Bytes) (evs : List Ev) (hok : StopsOk stops) :
-    let f := run true limit stops init evs
+theorem stop_honoured (pinned : Bool) (limit : Int) (stops : List Bytes) (evs : List Ev) (hok : StopsOk stops) :
+    let f := run pinned limit stops init evs
     ValidPrefix f.genText → (∃ t ∈ stops, Occurs t f.genText) →
       ∃ s, f.cause = some (.stopString s) ∧ f.done = some .stop := by
   intro f hvp ⟨t, ht, hocc⟩
   cases hcause : f.cause with
   | some c =>
     cases c with
-    | stopString s => exact ⟨s, rfl, (stop_found limit stops evs hok s hvp hcause).1⟩
-    | eos => exact absurd hocc ((ends_at_eos_or_limit limit stops evs hok hvp (by simp [f, hcause])).1 t ht)
-    | limit => exact absurd hocc ((ends_at_eos_or_limit limit stops evs hok hvp (by simp [f, hcause])).1 t ht)
-  | none => exact absurd hocc ((ends_at_eos_or_limit limit stops evs hok hvp (by simp [f, hcause])).1 t ht)
+    | stopString s => exact ⟨s, rfl, (stop_found pinned limit stops evs hok s hvp hcause).1⟩
+    | eos => exact absurd hocc ((ends_at_eos_or_limit pinned limit stops evs hok hvp (by simp [f, hcause])).1 t ht)
+    | limit => exact absurd hocc ((ends_at_eos_or_limit pinned limit stops evs hok hvp (by simp [f, hcause])).1 t ht)
+  | none => exact absurd hocc ((ends_at_eos_or_limit pinned limit stops evs hok hvp (by simp [f, hcause])).1 t ht)
 
 /-- the guard under which the multi-stop clause holds: the first *listed* stop occurring in the
     text is also the one that starts earliest -/
@@ -309,7 +338,8 @@ theorem no_stop_in_output_partial (limit : Int) (stops : List Bytes) (evs : List
   intro f hvp hguard t ht hocc
   by_cases hc : ∃ s, f.cause = some (.stopString s)
   · obtain ⟨s, hcs⟩ := hc
-    obtain ⟨_, _, hfind, ⟨idx, hidx, hout⟩, _⟩ := stop_found limit stops evs hok s hvp hcs
+    obtain ⟨_, _, ⟨idx, hidx, hout, _⟩, hfind', _⟩ := stop_found true limit stops evs hok s hvp hcs
+    have hfind := hfind' rfl
     rw [hout] at hocc
     obtain ⟨a, b, hab⟩ := hocc
     have hgen : f.genText = a ++ t ++ (b ++ f.genText.drop idx) := by
@@ -333,9 +363,43 @@ theorem no_stop_in_output_partial (limit : Int) (stops : List Bytes) (evs : List
     have htne : t.length ≠ 0 := fun h0 => (hok t ht).1 (List.eq_nil_of_length_eq_zero h0)
     omega
   · have hc' : ∀ s, f.cause ≠ some (.stopString s) := fun s h => hc ⟨s, h⟩
-    obtain ⟨hno, _, _, _⟩ := ends_at_eos_or_limit limit stops evs hok hvp hc'
+    obtain ⟨hno, _, _, _⟩ := ends_at_eos_or_limit true limit stops evs hok hvp hc'
     apply hno t ht
     obtain ⟨y, hy⟩ := (prefix_valid true limit stops evs hvp).1
+    rw [← hy]; exact hocc.append_right y
+
+/-- **Multi-stop clause, full, for the repaired `FindStop`** (proposed_fixes/C14-F7.patch,
+    `pinned = false`): for every script, limit and list of valid non-empty stops, if the generated
+    text is a prefix of valid UTF-8 then no stop string occurs in what was streamed. -/
+theorem no_stop_in_output_fixed (limit : Int) (stops : List Bytes) (evs : List Ev) (hok : StopsOk stops) :
+    let f := run false limit stops init evs
+    ValidPrefix f.genText → ∀ t ∈ stops, ¬ Occurs t f.outText := by
+  intro f hvp t ht hocc
+  by_cases hc : ∃ s, f.cause = some (.stopString s)
+  · obtain ⟨s, hcs⟩ := hc
+    obtain ⟨_, _, ⟨idx, hidx, hout, hmin⟩, _, _⟩ := stop_found false limit stops evs hok s hvp hcs
+    rw [hout] at hocc
+    obtain ⟨a, b, hab⟩ := hocc
+    have hgen : f.genText = a ++ t ++ (b ++ f.genText.drop idx) := by
+      have h0 : f.genText = f.genText.take idx ++ f.genText.drop idx :=
+        (List.take_append_drop idx f.genText).symm
+      have hab' : f.genText.take idx = a ++ t ++ b := hab
+      rw [hab'] at h0
+      rw [List.append_assoc] at h0
+      exact h0
+    have hOcc : Occurs t f.genText := ⟨a, _, hgen⟩
+    obtain ⟨j, hj⟩ := hOcc.indexOf
+    have hjle := (indexOf_spec t _ j hj).2 a _ hgen
+    have hij : idx ≤ j := hmin rfl t ht j hj
+    have hlen := congrArg List.length hab
+    rw [List.length_take] at hlen
+    simp only [List.length_append] at hlen
+    have htne : t.length ≠ 0 := fun h0 => (hok t ht).1 (List.eq_nil_of_length_eq_zero h0)
+    omega
+  · have hc' : ∀ s, f.cause ≠ some (.stopString s) := fun s h => hc ⟨s, h⟩
+    obtain ⟨hno, _, _, _⟩ := ends_at_eos_or_limit false limit stops evs hok hvp hc'
+    apply hno t ht
+    obtain ⟨y, hy⟩ := (prefix_valid false limit stops evs hvp).1
     rw [← hy]; exact hocc.append_right y
 
 /-- **Single stop**: the full clause.  If the stop occurs in the generated text, the output is
@@ -352,8 +416,11 @@ theorem single_stop (limit : Int) (s : Bytes) (evs : List Ev) (hs : s ≠ [] ∧
   have hok : StopsOk [s] := by intro t ht; simp at ht; subst ht; exact hs
   constructor
   · intro hocc
-    obtain ⟨s', hc, hd⟩ := stop_honoured limit [s] evs hok hvp ⟨s, by simp, hocc⟩
-    obtain ⟨_, hmem, hfind, hidx, _⟩ := stop_found limit [s] evs hok s' hvp hc
+    obtain ⟨s', hc, hd⟩ := stop_honoured true limit [s] evs hok hvp ⟨s, by simp, hocc⟩
+    obtain ⟨_, hmem, ⟨idx, hidx1, hidx2, _⟩, hfind', _⟩ := stop_found true limit [s] evs hok s' hvp hc
+    have hfind := hfind' rfl
+    have hidx : ∃ idx, indexOf s' (run true limit [s] init evs).genText = some idx ∧
+        (run true limit [s] init evs).outText = (run true limit [s] init evs).genText.take idx := ⟨idx, hidx1, hidx2⟩
     simp at hmem; subst hmem
     refine ⟨hd, ?_, hidx⟩
     apply no_stop_in_output_partial limit [s'] evs hok hvp _ s' (by simp)
@@ -362,9 +429,9 @@ theorem single_stop (limit : Int) (s : Bytes) (evs : List Ev) (hs : s ≠ [] ∧
     obtain ⟨idx, hi, _⟩ := hidx
     simp [hi]
   · intro hno s' hc
-    obtain ⟨_, hmem, hfind, _, _⟩ := stop_found limit [s] evs hok s' hvp hc
+    obtain ⟨_, hmem, _, hfind', _⟩ := stop_found true limit [s] evs hok s' hvp hc
     simp at hmem; subst hmem
-    exact hno (findStop_some hfind).2
+    exact hno (findStop_some (hfind' rfl)).2
 
 /-! ### 6. witnesses of the defects the model shares with the code -/
 
